@@ -164,6 +164,15 @@ def main(argv=None):
             known_lines.append("NOTE: known finding %s no longer reproduces on this tree (witness %s): %s" % (
                 f["id"], f["witness"]["obligation"], "holds" if r.get("holds") else r.get("exc")))
 
+    if os.environ.get("VERIF_EXAMPLES_ONLY"):
+        # development aid: validate every example and known-finding witness of a tier on the plain interpreter, without the symbolic search
+        for h in harness_errors:
+            print("HARNESS-ERROR:", h)
+        for v in violations:
+            print("  example violates obligation %s args=%s" % (v[0], json.dumps(v[1])))
+        print("%s %s examples only: %d obligations, %d examples validated, %d example violations, %d harness errors" % (
+            prop, tier, len(obls), validated, len(violations), len(harness_errors)))
+        return 3 if harness_errors else (1 if violations else 0)
     # ---------------- 3. symbolic runs
     target = float(meta.get("batch_cost", 25.0))
     bl = batches(obls, a.jobs, target)
